@@ -4,3 +4,4 @@ pub mod c12;
 pub mod c18;
 pub mod c16;
 pub mod c15;
+pub mod c14;
